@@ -57,6 +57,7 @@ type discoverCtx struct {
 	blocks map[int]bool
 	writes map[string]bool
 	all    bool
+	freshBase int // number of allocations made before the discovery started
 }
 
 // State is one symbolic path state.
@@ -281,10 +282,20 @@ func (st *State) store(x *Exec, p SV, v SV) {
 	if len(v.l) != li.hi-li.lo {
 		panic(fmt.Sprintf("store: leaf mismatch storing %s into %s (%d vs %d)", typeKey(v.ty), typeKey(li.ty), len(v.l), li.hi-li.lo))
 	}
+	// writes to objects allocated inside the loop being discovered are not part of its write set:
+	// such objects are fresh in every iteration
+	local := false
+	if st.disc != nil && base.isConst() && base.c.IsInt64() && base.c.Int64() > int64(0x80000000)+int64(st.disc.freshBase) {
+		local = true
+	}
 	for k := li.lo; k < li.hi; k++ {
 		r := st.region(li.key(k), li.regionSort(k))
 		nv := nestStore(Select(r, base), li.idxs, v.l[k-li.lo])
-		st.setRegion(li.key(k), Store(r, base, nv))
+		if local {
+			st.heap[li.key(k)] = Store(r, base, nv)
+		} else {
+			st.setRegion(li.key(k), Store(r, base, nv))
+		}
 	}
 }
 
